@@ -525,6 +525,90 @@ func genSvcRandom(r *rand.Rand, maxLen int) []hx.T {
 	return ops
 }
 
+// ---------------------------------------------------------------- probes
+
+// exhaustive small scope over the registration of two probe centres and one ordinary centre
+// for one name, with the calls of probe 6 optionally held inside the global centre: every
+// sequence of length L over the alphabet, followed by: the held call returns, a publication,
+// 6 unsubscribes, a publication.
+func enumerateProbe(L int, emit func([]hx.T)) {
+	alpha := []hx.T{
+		hx.C("OReg", 6, 1, true), hx.C("OReg", 6, 1, false),
+		hx.C("OReg", 7, 1, true), hx.C("OReg", 7, 1, false),
+		hx.C("OPark", 6, 1, true), hx.C("OPark", 6, 1, false),
+		hx.C("ORelease", 6),
+		hx.C("OAct", hx.C("AGPub", 1, []int64{2}, 1)),
+		hx.C("OAct", hx.C("ASub", 1, 1, 1, 0, []int64{1}, 0)),
+		hx.C("OAct", hx.C("AUnsub", 1, 1, 1)),
+		hx.C("OAct", hx.C("AClear", 1)),
+	}
+	post := []hx.T{
+		hx.C("ORelease", 6),
+		hx.C("OAct", hx.C("AGPub", 1, []int64{3}, 1)),
+		hx.C("OReg", 6, 1, false),
+		hx.C("OAct", hx.C("AGPub", 1, []int64{4}, 1)),
+	}
+	cur := make([]hx.T, L)
+	var rec func(d int)
+	rec = func(d int) {
+		if d == L {
+			emit(append(append([]hx.T{}, cur...), post...))
+			return
+		}
+		for _, a := range alpha {
+			cur[d] = a
+			rec(d + 1)
+		}
+	}
+	rec(0)
+}
+
+// random: two probes, two names, two ordinary channel centres and a run service registering and
+// leaving, calls of either probe held across any of it, publications (also up to the queue cap)
+func genProbeRandom(r *rand.Rand) []hx.T {
+	var ops []hx.T
+	names := int64(1 + r.Intn(2))
+	pc := func() int64 {
+		if r.Intn(15) == 0 {
+			return hx.Pick(r, []int64{1, 5, 8})
+		}
+		return 6 + r.Int63n(2)
+	}
+	subs := int64(0)
+	n := 5 + r.Intn(16)
+	for len(ops) < n {
+		nm := 1 + r.Int63n(names)
+		switch p := r.Intn(100); {
+		case p < 18:
+			ops = append(ops, hx.C("OReg", pc(), nm, r.Intn(3) > 0))
+		case p < 34:
+			ops = append(ops, hx.C("OPark", pc(), nm, r.Intn(3) > 0))
+		case p < 50:
+			ops = append(ops, hx.C("ORelease", pc()))
+		case p < 70:
+			k := int64(1 + r.Intn(2))
+			if r.Intn(12) == 0 {
+				k = 997 + r.Int63n(4)
+			}
+			ops = append(ops, hx.C("OAct", hx.C("AGPub", nm, []int64{int64(len(ops))}, k)))
+		case p < 82:
+			subs++
+			ops = append(ops, hx.C("OAct", hx.C("ASub", hx.Pick(r, []int64{1, 2, 4}), nm, 1, 0, []int64{subs}, 0)))
+		case p < 92:
+			ops = append(ops, hx.C("OAct", hx.C("AUnsub", hx.Pick(r, []int64{1, 2, 4}), nm, 1+r.Int63n(subs+1))))
+		case p < 96:
+			ops = append(ops, hx.C("OAct", hx.C("AClear", hx.Pick(r, []int64{1, 2}))))
+		default:
+			ops = append(ops, hx.C("ODiscard", hx.Pick(r, []int64{1, 2}), 1200))
+		}
+	}
+	ops = append(ops, hx.C("ORelease", 6), hx.C("ORelease", 7))
+	for nm := int64(1); nm <= names; nm++ {
+		ops = append(ops, hx.C("OAct", hx.C("AGPub", nm, []int64{99}, 1)))
+	}
+	return ops
+}
+
 // ---------------------------------------------------------------- tags / non-triviality
 
 func tagsOf(trace []any) (tags []string, nontrivial bool) {
@@ -614,6 +698,15 @@ func tagsOf(trace []any) (tags []string, nontrivial bool) {
 			}
 		case "VDeadlock":
 			set["blocked"] = true
+		case "VProbe":
+			set["probe-queues-observed"] = true
+			for _, q := range t.Args[3].([]any) {
+				if q.(int64) > 0 {
+					nontrivial = true
+				}
+			}
+		case "VDone":
+			set["held-call-returned"] = true
 		case "VStop":
 			nontrivial = true
 			set["service-stop"] = true
@@ -683,6 +776,10 @@ func Run(cfg *hx.Config) error {
 				enumerateSvc(started, L, func(ops []hx.T) { jobs = append(jobs, job{k, ops}) })
 			}
 		}
+		for L := 0; L <= depth+1; L++ {
+			k := fmt.Sprintf("probe-exhaustive-%d", L)
+			enumerateProbe(L, func(ops []hx.T) { jobs = append(jobs, job{k, ops}) })
+		}
 		nb := 7
 		if cfg.Tier == "thorough" {
 			nb = 10
@@ -699,6 +796,9 @@ func Run(cfg *hx.Config) error {
 		}
 		for v := 0; v < 2*nfill; v++ {
 			jobs = append(jobs, job{"teardown", genTeardown(cfg.Rng)})
+		}
+		for v := 0; v < 2*nfill; v++ {
+			jobs = append(jobs, job{"probe-random", genProbeRandom(cfg.Rng)})
 		}
 		for i := 0; i < cfg.N; i++ {
 			maxLen := 10
